@@ -164,6 +164,11 @@ func GenConfig(r *rand.Rand, profile string) Config {
 			c.Stakes = append(c.Stakes, int64(1+r.Intn(1000)))
 		}
 	}
+	if c.NVals >= 2 && r.Intn(16) == 0 {
+		// a whale and a dust validator: the dust validator's normalised bridge power rounds to 0
+		c.Stakes[0] = 5_000_000_000 + r.Int63n(1_000_000_000)
+		c.Stakes[c.NVals-1] = 1
+	}
 	c.Keys = make([][]bool, c.NVals)
 	for v := range c.Keys {
 		c.Keys[v] = make([]bool, len(Chains))
